@@ -1203,6 +1203,9 @@ func e2eConfigCase(c *kit.Case) {
 	var menu []xPick
 	for i, rt := range cfg.Routes {
 		switch {
+		case rt.SSE:
+			// only through the entries below: what rest.WithSSE changes for a request that does not
+			// announce itself as an event-stream request is not part of the statement
 		case rt.Eff == 0:
 			menu = append(menu, xPick{route: i, modes: []string{"fast", "overrun", "overrun"}})
 			menu = append(menu, xPick{route: i, hdr: sseExact, hname: "sse-exact", exempt: "must", modes: []string{"overrun", "sse-stream"}})
@@ -1309,7 +1312,7 @@ func e2eConfigCase(c *kit.Case) {
 				outcome = "timeout"
 				rp.viol("timeout-result-without-expiry", treat+"/"+cls, "503 Request Timeout although no timeout applies to this request", wit)
 			default:
-				rp.viol("mixture", mixKind()+"/"+treat+"/"+cls, fmt.Sprintf("not the complete result: status %d body %q", res.status, clip(res.body, 100)), wit)
+				rp.viol("mixture", mixKind()+"/"+treat, fmt.Sprintf("not the complete result: status %d body %q", res.status, clip(res.body, 100)), wit)
 			}
 			if q.Mode == "sse-stream" {
 				c.Obs("e2ec_sse_streams", 1)
@@ -1341,7 +1344,7 @@ func e2eConfigCase(c *kit.Case) {
 					rp.viol("timeout-result-without-expiry", "wrapped/"+cls, fmt.Sprintf("503 after %s, before the effective timeout %s could have passed", res.tResp.Sub(res.t0), d), wit)
 				}
 			default:
-				rp.viol("mixture", mixKind()+"/wrapped/"+cls, fmt.Sprintf("neither the complete result nor the timeout result: status %d body %q", res.status, clip(res.body, 100)), wit)
+				rp.viol("mixture", mixKind()+"/wrapped", fmt.Sprintf("neither the complete result nor the timeout result: status %d body %q", res.status, clip(res.body, 100)), wit)
 			}
 		}
 		blockedTO, ackTO := q.blockedTO, q.ackTO
